@@ -956,6 +956,14 @@ class GraphBuilder(BuilderBase):
 
         count = self.graph.num_nodes()
         node_name_prefix = self._qualify_node_name(f"{function.name}_node_{count}/")
+        if _verif.ENABLED:
+            _verif.emit(
+                _verif.builder_kind(self),
+                "InlineBegin",
+                b=_verif.tok(self, "b"),
+                function=str(function.name),
+                prefix=str(node_name_prefix),
+            )
         nodes, outputs = _inliner.instantiate(graph, args, kwargs, prefix=node_name_prefix)
 
         # Track final output values so we can rename them separately.
